@@ -42,13 +42,27 @@ def memo_sites(repo):
         elif 'context_property' in fi.decorators:
             out.append({'key': fi.key, 'kind': 'context_property', 'fi': fi})
         else:
-            # try: return self._x / except AttributeError: ... self._x = v
+            # try: return self._x / except AttributeError: ... self._x = v    (also: try: v = self._x; hasattr(self, '_x'))
+            found = set()
+            stores = {n.attr for n in ast.walk(fi.node) if isinstance(n, ast.Attribute) and isinstance(n.ctx, ast.Store)
+                      and unparse(n.value) == 'self'}
             for t in ast.walk(fi.node):
                 if isinstance(t, ast.Try) and len(t.body) == 1 and isinstance(t.body[0], ast.Return) \
                         and isinstance(t.body[0].value, ast.Attribute) and unparse(t.body[0].value.value) == 'self' \
                         and any(h.type is not None and 'AttributeError' in unparse(h.type) for h in t.handlers):
-                    out.append({'key': fi.key, 'kind': 'attribute idiom (%s)' % t.body[0].value.attr, 'fi': fi,
-                                'attr': t.body[0].value.attr})
+                    found.add(t.body[0].value.attr)
+                elif fi.cls is None:
+                    continue            # the memo decorators themselves (util.context_property) are interpreted, see R6
+                elif isinstance(t, ast.Try) and any(h.type is not None and 'AttributeError' in unparse(h.type) for h in t.handlers):
+                    for n in ast.walk(ast.Module(body=t.body, type_ignores=[])):
+                        if isinstance(n, ast.Attribute) and isinstance(n.ctx, ast.Load) and unparse(n.value) == 'self' \
+                                and n.attr in stores and fi.name != '__init__':
+                            found.add(n.attr)
+                elif isinstance(t, ast.Call) and unparse(t.func) == 'hasattr' and len(t.args) == 2 and unparse(t.args[0]) == 'self' \
+                        and isinstance(t.args[1], ast.Constant) and t.args[1].value in stores and fi.name != '__init__':
+                    found.add(t.args[1].value)
+            for a in sorted(found):
+                out.append({'key': fi.key, 'kind': 'attribute idiom (%s)' % a, 'fi': fi, 'attr': a})
     return out
 
 
